@@ -5,7 +5,7 @@ fragment G.  Anything outside the fragment is emitted as `<name>_untranslatable`
 
 usage: extract.py [--repo /repo] [--out path] [--check]   (exit 0; prints 'changed' / 'unchanged')
 """
-import ast, os, sys, json, warnings
+import ast, os, re, sys, json, warnings
 warnings.filterwarnings("ignore")
 
 REPO = os.environ.get("SHEXER_REPO", "/repo")
@@ -645,14 +645,25 @@ def string_fragment(report, uri_consts, shape_consts):
     consts['STARTING_CHAR_FOR_SHAPE_NAME'] = shape_consts.get('STARTING_CHAR_FOR_SHAPE_NAME', '<missing>')
     jobs = [("shexer/utils/uri.py", None, 'remove_corners', 'remove_corners', {'a_uri': 'str', 'raise_error_if_no_corners': 'bool'}, 'str'),
             ("shexer/utils/uri.py", None, 'decide_literal_type', 'decide_literal_type', {'a_literal': 'str', 'base_namespace': 'optstr'}, 'str'),
+            ("shexer/utils/uri.py", None, 'longest_common_prefix', 'longest_common_prefix', {'uri1': 'str', 'uri2': 'str'}, 'str'),
+            ("shexer/core/shexing/strategy/minimal_iri_strategy/annotate_min_iri_strategy.py", 'AnnotateMinIriStrategy', '_determine_suitable_iri_pattern',
+             'determine_suitable_iri_pattern', {'longest_common_prefix': 'optstr'}, 'optstr'),
             ("shexer/utils/shapes.py", None, 'build_shapes_name_for_class_uri', 'build_shapes_name_for_class_uri',
              {'class_uri': 'str', 'shapes_namespace': 'str'}, 'str'),
             ("shexer/utils/translators/list_of_classes_to_shape_map.py", 'ListOfClassesToShapeMap', '_get_shape_label_for_class_uri',
              'get_shape_label_for_class_uri', {'class_uri': 'str'}, 'str')]
     for rel, cls, pyname, lname, types, ret in jobs:
         try:
-            fn = find_func(parse(rel), pyname, cls)
-            XS.translate(out, report, assumptions, 'S.' + lname, fn, types, ret, consts)
+            tree = parse(rel)
+            fn = find_func(tree, pyname, cls)
+            local = dict(consts)
+            for node in tree.body:      # module constants `P = re.compile("[...]")` that are plain character classes
+                if isinstance(node, ast.Assign) and len(node.targets) == 1 and isinstance(node.targets[0], ast.Name) and isinstance(node.value, ast.Call) \
+                        and isinstance(node.value.func, ast.Attribute) and node.value.func.attr == 'compile' and isinstance(node.value.func.value, ast.Name) \
+                        and node.value.func.value.id == 're' and len(node.value.args) == 1 and isinstance(node.value.args[0], ast.Constant) \
+                        and isinstance(node.value.args[0].value, str) and re.fullmatch(r"\[[^\]\\^\-\[]+\]", node.value.args[0].value):
+                    local[node.targets[0].id] = ('charclass', node.value.args[0].value[1:-1])
+            XS.translate(out, report, assumptions, 'S.' + lname, fn, types, ret, local)
         except (Untranslatable, OSError, SyntaxError) as e:
             out.append("def %s_untranslatable : Unit := ()  -- %s\n" % (lname, str(e)[:100]))
             report['S.' + lname] = 'UNTRANSLATABLE: ' + str(e)[:200]
@@ -674,10 +685,10 @@ def string_fragment(report, uri_consts, shape_consts):
             elif t == 'optstr':
                 args.append("opt")
         call = "%s %s%s" % (lname, "resolve " if "(resolve :" in header else "", " ".join(args))
-        arms.append('  | "%s", %s => some (%s)' % (lname, pat, call))
+        arms.append('  | "%s", %s => some (%s)' % (lname, pat, call if ret == 'optstr' else "(%s).map some" % call))
     out.append("/-- dispatch by name for `strdriver` (the translator's correspondence check) -/")
     out.append("def dispatch (resolve : List Char → List Char → List Char) (name : String) (strs : List (List Char)) (flag : Bool)")
-    out.append("    (opt : Option (List Char)) : Option (Except PyExc (List Char)) :=")
+    out.append("    (opt : Option (List Char)) : Option (Except PyExc (Option (List Char))) :=")
     out.append("  match name, strs with")
     out += arms
     out.append("  | _, _ => none\n")
